@@ -311,7 +311,8 @@ inductive LState
   | attrName (c : TagCtx) (acc : Str)     -- reading an attribute name (reversed)
   | afterEq (c : TagCtx)                  -- after `name=`
   | quoted (c : TagCtx) (q : UInt8)       -- inside a quoted attribute value
-  | script (m : Nat)                      -- raw text of <script>; m = matched prefix of `</script>`
+  | rawText (e : Str) (m : Nat)           -- raw text of <script> <style> <title> <textarea>;
+                                          -- e = the end tag `</name>`, m = matched prefix of it
   | dead                                  -- after a lexical error
 deriving DecidableEq, Repr
 
@@ -320,8 +321,13 @@ def isAlpha (b : UInt8) : Bool := (65 ≤ b && b ≤ 90) || (97 ≤ b && b ≤ 1
 def isNameByte (b : UInt8) : Bool := isAlpha b || (48 ≤ b && b ≤ 57) || b == 45 || b == 95 || b == 58
 def isSpace (b : UInt8) : Bool := b == 32 || b == 9 || b == 10 || b == 13 || b == 12
 
-def scriptName : Str := [115, 99, 114, 105, 112, 116]          -- "script"
-def scriptEnd : Str := [60, 47, 115, 99, 114, 105, 112, 116, 62] -- "</script>"
+/-- elements whose content is raw text (script, style) or escapable raw text (title, textarea):
+    no tag is recognised inside them until their own end tag -/
+def rawTextNames : List Str :=
+  [[115, 99, 114, 105, 112, 116], [115, 116, 121, 108, 101], [116, 105, 116, 108, 101],
+   [116, 101, 120, 116, 97, 114, 101, 97]]   -- script style title textarea
+
+def endTagOf (name : Str) : Str := [60, 47] ++ name ++ [62]
 
 /-- the token of a finished tag and the state after it -/
 def finishTag (c : TagCtx) (slash : Bool) : LState × List Tok :=
@@ -329,7 +335,7 @@ def finishTag (c : TagCtx) (slash : Bool) : LState × List Tok :=
   if c.closing then
     if attrs.isEmpty && !slash then (.data, [.close c.name]) else (.dead, [.bad])
   else if slash then (.data, [.selfClose c.name attrs])
-  else if c.name == scriptName then (.script 0, [.open c.name attrs])
+  else if rawTextNames.contains c.name then (.rawText (endTagOf c.name) 0, [.open c.name attrs])
   else (.data, [.open c.name attrs])
 
 def lexStep : LState → UInt8 → LState × List Tok
@@ -367,11 +373,11 @@ def lexStep : LState → UInt8 → LState × List Tok
     if b == 34 || b == 39 then (.quoted c b, [])
     else (.dead, [.bad])          -- the code never writes unquoted values
   | .quoted c q, b => if b == q then (.inTag c false, []) else (.quoted c q, [])
-  | .script m, b =>
-    if lower b == scriptEnd.getD m 0 then
-      if m + 1 == scriptEnd.length then (.data, [.close scriptName]) else (.script (m + 1), [])
-    else if b == 60 then (.script 1, [])
-    else (.script 0, [])
+  | .rawText e m, b =>
+    if lower b == e.getD m 0 then
+      if m + 1 == e.length then (.data, [.close ((e.drop 2).dropLast)]) else (.rawText e (m + 1), [])
+    else if b == 60 then (.rawText e 1, [])
+    else (.rawText e 0, [])
   | .dead, _ => (.dead, [])
 
 /-- specification of the tokenizer: one step per byte -/
@@ -416,10 +422,12 @@ def skeleton (s : Str) : LState × List Tok := lexHtml s
 
 /-! ## Abstract run over pieces (no data value is looked at) -/
 
-/-- states in which a data value may stand: element content, or a double-quoted attribute value -/
+/-- states in which a data value may stand: element content, a double-quoted attribute value, or
+    the raw text of `<title>` … (no `<` can start the end tag there either) -/
 def dataOk : LState → Bool
   | .data => true
   | .quoted _ q => q == 34
+  | .rawText e m => m == 0 && e.head? == some 60
   | _ => false
 
 def runPieces : LState → List Piece → Option (LState × List Tok)
